@@ -178,6 +178,7 @@ def run(chk):
     line_table_rules(chk, by_norm)
     operand_and_closure_rules(chk, by_norm, d['types'])
     jump_parity_rule(chk, by_norm)
+    flag_rule(chk, by_norm, 'C14-R13')
     chk.rule('C14-R12', 'a literal relative jump operand selected by version skips the same instructions on every target: the byte distance written for <= 3.9 is twice the '
                         'instruction distance written for 3.10 (and 3.7 = 3.8 = 3.9); otherwise one of the targets jumps between or past instructions — in tail position past the end of the code')
     from sa.props.c13 import literal_jump_rule
@@ -371,6 +372,29 @@ def jump_parity_rule(chk, by_norm):
                 else:
                     chk.notes.append({'parity not evaluated': '%s: %s' % (nm, inst)}) if len(chk.notes) < 40 else None
     chk.floor('jump operands examined (site x version 3.7-3.9)', nsite, 20)
+
+
+def flag_rule(chk, by_norm, rid):
+    """MAKE_FUNCTION takes one flag word that several emitters fill in turn (emit_params: Defaults / KwDefaults, enclose_vars: Closure)"""
+    chk.rule(rid, 'the MAKE_FUNCTION flag word is only accumulated: every write of a MakeFunctionFlags value through a `&mut usize` handed in by the caller is `+=` / `|=` — a plain `=` '
+                  'drops the flags an earlier emitter set: an inner function with a default parameter that also captures a variable is created without its defaults '
+                  '(MAKE_FUNCTION leaves the defaults tuple on the stack, the call raises TypeError: missing argument)')
+    n = 0
+    for nm, f in sorted(by_norm.items()):
+        if not nm.startswith('PyCodeGenerator::'):
+            continue
+        for x in T.walk(f['body']):
+            if x.get('k') in ('Assign', 'AssignOp') and 'MakeFunctionFlags::' in T.show(x.get('y') or {}):
+                lhs = x['x']
+                through_ref = lhs.get('k') == 'Unary' and lhs.get('op') == '*' or T.show(lhs).startswith('*')
+                n += 1
+                key = '%s:%s' % (nm, T.norm(T.show(lhs))[:24])
+                if x['k'] == 'AssignOp' and x['op'] in ('+', '+=', '|', '|='):
+                    chk.ok(rid, (key, x.get('l')), sample='%s: %s' % (nm, T.show(x)[:70]))
+                elif through_ref or x['k'] == 'Assign':
+                    chk.bad(rid, nm, 'overwrites:' + T.norm(T.show(lhs))[:24], '%s writes `%s`: the flag word it was handed may already hold Defaults / KwDefaults from emit_params, which this '
+                            'assignment drops — `f x, n := 10 = x + n + captured` inside a function is created without defaults' % (nm, T.show(x)[:60]), CODEGEN, x.get('l'))
+    chk.floor('writes of MakeFunctionFlags values', n, 3)
 
 
 def operand_and_closure_rules(chk, by_norm, types):
